@@ -263,11 +263,14 @@ class PCtx:
             a, b = self.fpoly(t.args[1]), self.fpoly(t.args[2])
             if a == b:
                 return a
+            c = t.args[0]
+            fa = self._abs_pattern(c, a, b)
+            if fa is not None:
+                return fa
             r = self.decide(t.args[0])
             if r is not None:
                 return a if r else b
-            c = t.args[0]
-            if c.op == 'fcmp' and a == -b:
+            if False and c.op == 'fcmp' and a == -b:
                 # |x| written as a selection:  (0 <= x ? x : -x), (x < 0 ? -x : x) ...   (real-number reading)
                 p1, p2 = self.fpoly(c.args[1]), self.fpoly(c.args[2])
                 z = Poly()
@@ -291,6 +294,24 @@ class PCtx:
 
     def decide(self, c):
         """hook: truth value of condition c if the context fixes it (DecisionCtx), else None"""
+        return None
+
+    def _abs_pattern(self, c, a, b):
+        """|x| written as a selection:  (0 <= x ? x : -x), (x < 0 ? -x : x) ...   (real-number reading)"""
+        if c.op != 'fcmp' or a != -b or a.is_zero():
+            return None
+        pr = c.args[0]
+        if pr not in ('ole', 'olt', 'ule', 'ult'):
+            return None
+        try:
+            p1, p2 = PCtx.fpoly(self, c.args[1]), PCtx.fpoly(self, c.args[2])
+        except NeedAtom:
+            return None
+        z = Poly()
+        if p1 == z and p2 == a or p2 == z and p1 == b:
+            return self._fatom('fabs', ('P', _signnorm(a)))
+        if p1 == z and p2 == b or p2 == z and p1 == a:
+            return -self._fatom('fabs', ('P', _signnorm(a)))
         return None
 
     def inv(self, b):
